@@ -70,7 +70,7 @@ class Case:
             d["cu"] = inp.declare("cu", (norb, nu), cplx)
             d["cd"] = inp.declare("cd", (norb, nd), cplx)
         elif kind in ("ghf", "ghf_cpmc"):
-            d["c"] = inp.declare("c", (2 * norb, nu + nd))
+            d["c"] = inp.declare("c", (2 * norb, nu + nd), cplx if (kind == "ghf" and opts.get("ghf_complex", True)) else False)    # ghf_cpmc: constrained-path trials are real
         elif kind == "noci":
             d["ci"] = inp.declare("ci", (ndets,))
             d["du"] = inp.declare("du", (ndets, norb, nu))
@@ -133,7 +133,8 @@ class Case:
         elif kind in ("ghf", "ghf_cpmc"):
             self.trial = getattr(wf, kind)(norb, nel)
             self.wave = dict(mo_coeff=V("c"))
-            self.psibar = V("c").map(lambda c: F.ghf_vec(c))
+            # bra of |psi_T> = prod_k (sum_p C_pk a+_p)|0>: conjugated orbital coefficients (complex GHF orbitals are admissible parameters)
+            self.psibar = (d["c"]["Vc"] if d["c"].get("partner") else V("c")).map(lambda c: F.ghf_vec(c))
         elif kind == "noci":
             self.trial = wf.noci(norb, nel, ndets)
             self.wave = dict(ci_coeffs_dets=[V("ci"), [V("du"), V("dd")]])
@@ -1173,8 +1174,6 @@ def rdm_true(kind, norb, nu, nd, complex_orbitals=False):
         wave_s, wave_x = dict(mo_coeff=[cs, ds]), dict(mo_coeff=[jnp.asarray(cx), jnp.asarray(dx)])
         psi = F.det_vec(cs, ds)
     elif kind == "ghf":
-        if complex_orbitals:
-            raise Unsupported("ghf trials are real")
         # the GHF trial state is the spin-orbital determinant itself (all S_z sectors): 1-RDM on the spin-orbital Fock space
         import itertools
         trial = wf.ghf(norb, nel)
@@ -1183,7 +1182,7 @@ def rdm_true(kind, norb, nu, nd, complex_orbitals=False):
         strings = list(itertools.combinations(range(so), n))
         sidx = {t: k for k, t in enumerate(strings)}
         amp = [det_sym(cs[list(t), :]) for t in strings]
-        nrm = sum((a * a for a in amp[1:]), amp[0] * amp[0])
+        nrm = sum((a.conj() * a for a in amp[1:]), amp[0].conj() * amp[0])
         got = np.asarray(trial._calc_rdm1(dict(mo_coeff=jnp.asarray(cx))))
         bad, worst = [], 0.0
         for sp_ in range(2):
@@ -1198,7 +1197,7 @@ def rdm_true(kind, norb, nu, nd, complex_orbitals=False):
                         r2 = Fock._cre(r[1], Q)
                         if r2 is None:
                             continue
-                        term = amp[sidx[r2[1]]] * amp[sidx[t]]
+                        term = amp[sidx[r2[1]]].conj() * amp[sidx[t]]
                         tot = tot + term if r[0] * r2[0] > 0 else tot - term
                     wv = complex((tot / nrm).evalf({}))
                     dev = abs(complex(got[sp_, p_, q_]) - wv)
